@@ -299,15 +299,26 @@ pub fn sweep(env: &Arc<Env>, check: &Arc<dyn Check>, tier: Tier, lo: u64, n: u64
                         if i >= n {
                             break;
                         }
-                        let mut scn = check.generate(seed, lo + i, tier);
-                        crate::gen::fix_point_goals(&mut scn);
-                        let t = Instant::now();
-                        let mut rep = {
-                            let _g = watch(&scn);
-                            check.evaluate(&scn)
-                        };
-                        rep.wall_us = t.elapsed().as_micros() as u64;
-                        *slots[i as usize].lock().unwrap() = Some((scn, rep));
+                        // a panic of the harness itself (generator, oracle) must end the check
+                        // as a harness error, never leave the sweep waiting for a dead worker
+                        let r = std::panic::catch_unwind(std::panic::AssertUnwindSafe(|| {
+                            let mut scn = check.generate(seed, lo + i, tier);
+                            crate::gen::fix_point_goals(&mut scn);
+                            let t = Instant::now();
+                            let mut rep = {
+                                let _g = watch(&scn);
+                                check.evaluate(&scn)
+                            };
+                            rep.wall_us = t.elapsed().as_micros() as u64;
+                            (scn, rep)
+                        }));
+                        match r {
+                            Ok(x) => *slots[i as usize].lock().unwrap() = Some(x),
+                            Err(_) => {
+                                println!("harness error: the harness panicked while generating or evaluating scenario {} (seed {seed}); see the panic message above", lo + i);
+                                std::process::exit(2);
+                            }
+                        }
                     }
                     done.fetch_add(1, Ordering::SeqCst);
                 })
